@@ -1,15 +1,24 @@
-"""G8/G9 for C05: the lists each `prune()` empties / filters / marks visible / recurses into
-(ast of FortranCodeUnit.prune, FortranType.prune, FortranBlockData.prune in ford/sourceform.py),
-the CONTAINERS map and the code-unit chain of Project.correlate (ford/fortran_project.py), the
-(entity list -> page class) map of Documentation.__init__ (ford/output.py), and normalised source
-pins of the hand-modelled functions `_set_display`, `_should_display`, `filter_display`,
-`FortranBase.__str__`.  Written to lean/FordModel/Generated/C05.lean on every run.
+"""G8/G9 for C05.  Since round 5 the tables follow what the code DOES, not how it is spelled:
+
+* what each `prune()` empties / filters / marks visible / recurses into, `_set_display`, `_should_display` /
+  `filter_display`, `FortranBase.__str__`, the attributes `children` / `routines` consult, `_find_in_list`,
+  `get_dir` / `get_url`, `find_child`, `Project.find`, `convert_link`, the prune loop / CONTAINERS / chain of `Project.correlate`, the namelists `_fortran_file`
+  collects, what an extending type inherits, where common-block members go: **probed** by running the real
+  functions on the objects of a small probe project (`translate/c05_probe.py`);
+* `LINK_TYPES` / `SUBLINK_TYPES`: the values the imported modules are bound to;
+* the (entity list -> page class) map of `Documentation.__init__` (ford/output.py): ast, any binding name;
+* page templates with a namelist section: Jinja2's parser;
+* which classes define part of the lookup / of the display test: ast / the classes' own `__dict__` (`*DefinedIn`);
+* the link lookup (`find_child`, `Project.find`, `FordLinkProcessor.convert_link`): probed on recording stubs - which
+  lists are searched in which order, which lookups `convert_link` makes in which order and what it renders.
+No hash of any source text is left: every table is an observation of what the code does.
+Written to lean/FordModel/Generated/C05.lean on every run.
 
 A construct that cannot be found raises (tie broken, never a pass)."""
 import ast
-import hashlib
 
 from harness import common
+from translate import c05_probe as P
 
 
 def _classes(path):
@@ -25,85 +34,7 @@ def _method(classes, cname, mname):
     raise ValueError(f"{cname}.{mname} not found")
 
 
-def _self_attr(node):
-    if isinstance(node, ast.Attribute) and isinstance(node.value, ast.Name) and node.value.id == "self":
-        return node.attr
-    return None
-
-
-def _iter_lists(it):
-    """names of the lists a `for` iterates over: self.iterator('a','b') | self.a + self.b | self.a"""
-    if isinstance(it, ast.Call) and ast.unparse(it.func) == "self.iterator":
-        return [a.value for a in it.args if isinstance(a, ast.Constant)]
-    if isinstance(it, ast.BinOp) and isinstance(it.op, ast.Add):
-        return _iter_lists(it.left) + _iter_lists(it.right)
-    a = _self_attr(it)
-    if a:
-        return [a]
-    raise ValueError(f"unrecognised loop iterable in prune: {ast.unparse(it)}")
-
-
-def analyse_prune(fn):
-    """-> dict(guard, emptied, filtered, cond_filtered [(cond, list)], visible_only, recurse)"""
-    res = {"guard": "", "emptied": [], "filtered": [], "cond_filtered": [], "visible_only": [], "recurse": [], "other": []}
-
-    def assigns(stmts, into, cond=None):
-        for st in stmts:
-            if isinstance(st, ast.Expr) and isinstance(st.value, ast.Constant):
-                continue  # docstring
-            if isinstance(st, ast.Assign) and len(st.targets) == 1 and _self_attr(st.targets[0]):
-                name = _self_attr(st.targets[0])
-                v = st.value
-                if isinstance(v, ast.List) and not v.elts:
-                    res["emptied"].append(name) if into == "guard" else res["other"].append(ast.unparse(st))
-                elif (isinstance(v, ast.Call) and ast.unparse(v.func) == "self.filter_display" and len(v.args) == 1
-                      and _self_attr(v.args[0]) == name):
-                    if cond is None and into == "body":
-                        res["filtered"].append(name)
-                    elif into == "body":
-                        res["cond_filtered"].append((cond, name))
-                    else:
-                        res["other"].append(ast.unparse(st))
-                else:
-                    res["other"].append(ast.unparse(st))
-            elif isinstance(st, ast.Return) and into == "guard":
-                continue
-            elif isinstance(st, ast.If) and into == "body" and cond is None and not st.orelse:
-                if any(isinstance(s, ast.Return) for s in st.body):
-                    if res["guard"]:
-                        raise ValueError("two early-return guards in prune")
-                    res["guard"] = ast.unparse(st.test)
-                    assigns(st.body, "guard")
-                else:
-                    assigns(st.body, "body", ast.unparse(st.test))
-            elif isinstance(st, ast.For) and into == "body" and cond is None:
-                lists = _iter_lists(st.iter)
-                var = ast.unparse(st.target)
-                body = [ast.unparse(s) for s in st.body]
-                if body == [f"{var}.visible = True"]:
-                    res["visible_only"] += lists
-                elif body == [f"{var}.visible = True", f"{var}.prune()"]:
-                    res["recurse"] += lists
-                else:
-                    res["other"].append(ast.unparse(st))
-            else:
-                res["other"].append(ast.unparse(st))
-
-    assigns(fn.body, "body")
-    return res
-
-
-def norm_src(fn):
-    """normalised source of a function without its docstring"""
-    body = list(fn.body)
-    if body and isinstance(body[0], ast.Expr) and isinstance(body[0].value, ast.Constant) and isinstance(body[0].value.value, str):
-        body = body[1:]
-    return "\n".join(ast.unparse(s) for s in body)
-
-
-def pin(fn):
-    return hashlib.sha256(norm_src(fn).encode()).hexdigest()[:16]
-
+# --------------------------------------------------------------------------- Lean literals
 
 def lean_str(s):
     return '"' + s.replace("\\", "\\\\").replace('"', '\\"').replace("\n", "\\n") + '"'
@@ -117,154 +48,132 @@ def lean_pairs(xs):
     return "[" + ", ".join(f"({lean_str(a)}, {lean_str(b)})" for a, b in xs) + "]"
 
 
+def lean_bool(b):
+    return "true" if b else "false"
+
+
+def lean_nats(xs):
+    return "[" + ", ".join(str(int(x)) for x in xs) + "]"
+
+
+# --------------------------------------------------------------------------- extraction
+
+def _row(rows, cname, pint):
+    for r in rows:
+        if r[0] == cname and r[1] == pint:
+            return r
+    raise ValueError(f"prune probe: no row for {cname} / proc_internals={pint}")
+
+
+def prune_tables(rows):
+    """the per-`prune()` tables the model interprets, read off the probe rows (theorem `prune_probe_matches_model`
+    shows that every row - every class, both settings of proc_internals - is what the model makes of them)"""
+    cu_on = _row(rows, "FortranModule", True)
+    sub = _row(rows, "FortranSubmodule", True)
+    off = _row(rows, "FortranSubroutine", False)
+    ty = _row(rows, "FortranType", True)
+    bd = _row(rows, "FortranBlockData", True)
+
+    def tab(r, emptied=None):
+        return {"emptied": list(emptied if emptied is not None else r[2]), "filtered": list(r[3]),
+                "visible_only": list(r[4]), "recurse": list(r[5]), "cond_filtered": []}
+
+    cu = tab(cu_on, emptied=off[2])
+    cu["cond_filtered"] = [("FortranSubmodule", l) for l in sub[3] if l not in cu_on[3]]
+    return cu, tab(ty), tab(bd)
+
+
 def extract():
     _, classes = _classes("ford/sourceform.py")
-    cu = analyse_prune(_method(classes, "FortranCodeUnit", "prune"))
-    ty = analyse_prune(_method(classes, "FortranType", "prune"))
-    bd = analyse_prune(_method(classes, "FortranBlockData", "prune"))
-    # which classes define / inherit a prune at all
-    has_prune = sorted(c for c, n in classes.items() if any(isinstance(m, ast.FunctionDef) and m.name == "prune" for m in n.body))
-    if not cu["filtered"] or not ty["filtered"] or not bd["filtered"]:
-        raise ValueError("a prune() filters nothing")
-    pins = {
-        "_set_display": pin(_method(classes, "FortranBase", "_set_display")),
-        "_should_display": pin(_method(classes, "FortranBase", "_should_display")),
-        "filter_display": pin(_method(classes, "FortranBase", "filter_display")),
-        "__str__": pin(_method(classes, "FortranBase", "__str__")),
-    }
-    srcs = {k: norm_src(_method(classes, "FortranBase", k)) for k in pins}
-
-    # correlate: prune loop, CONTAINERS, chain
     _, pclasses = _classes("ford/fortran_project.py")
-    corr = _method(pclasses, "Project", "correlate")
-    containers = None
-    chain = None
-    prune_loop = None
-    ranklist_src = []
-    for node in ast.walk(corr):
-        if isinstance(node, ast.Assign) and ast.unparse(node.targets[0]) == "CONTAINERS" and isinstance(node.value, ast.Dict):
-            containers = [(k.value, v.value) for k, v in zip(node.value.keys, node.value.values)]
-        if isinstance(node, ast.For) and ast.unparse(node.target) == "code_unit":
-            it = node.iter
-            if isinstance(it, ast.Call) and ast.unparse(it.func) == "chain":
-                chain = [a.attr for a in it.args if isinstance(a, ast.Attribute)]
-        if isinstance(node, ast.For) and ast.unparse(node.iter) == "ranklist":
-            body = [ast.unparse(s) for s in node.body]
-            if any("prune()" in b for b in body):
-                prune_loop = "\n".join(body)
-        if isinstance(node, (ast.Assign, ast.Expr, ast.For)):
-            s = ast.unparse(node)
-            if "ranklist" in s and not isinstance(node, ast.For):
-                ranklist_src.append(s)
-            elif isinstance(node, ast.For) and "ranklist.append" in s:
-                ranklist_src.append(s)
-    if containers is None or chain is None or prune_loop is None:
-        raise ValueError("CONTAINERS / code-unit chain / prune loop not found in Project.correlate")
+    cx = P.Ctx()
+    try:
+        rows, universe, prune_classes = P.prune_probe(cx)
+        cu, ty, bd = prune_tables(rows)
+        if not cu["filtered"] or not ty["filtered"] or not bd["filtered"]:
+            raise ValueError("a prune() filters nothing")
+        has_prune = sorted({d for _, d in prune_classes})
+        probes = dict(
+            prune_rows=rows, universe=universe, prune_classes=prune_classes,
+            set_display=P.set_display_probe(cx), should_display=P.should_display_probe(cx), str=P.str_probe(cx),
+            children=P.children_probe(cx), find_in_list=P.find_in_list_probe(cx), url=P.url_probe(cx),
+            project=P.project_probe(cx))
+        ch = probes["children"]
+        probes["find_child"] = P.find_child_probe(cx, ch[0], ch[1])
+        probes["project_find"] = P.project_find_probe(cx)
+        probes["convert_link"] = P.convert_link_probe(cx)
+        probes["anomalies"] = list(dict.fromkeys(cx.anomalies))
+    finally:
+        cx.close()
 
-    # output: entity_list_page_map
+    # output: the list of (project.<list>, <Page class>) pairs and its conditional additions, whatever it is called
     otree, oclasses = _classes("ford/output.py")
     init = _method(oclasses, "Documentation", "__init__")
+
+    def pair(e):
+        if (isinstance(e, ast.Tuple) and len(e.elts) == 2 and isinstance(e.elts[0], ast.Attribute)
+                and isinstance(e.elts[0].value, ast.Name) and isinstance(e.elts[1], ast.Name)):
+            return (e.elts[0].attr, e.elts[1].id)
+        return None
+
     page_map = None
+    map_name = None
+    for node in ast.walk(init):
+        if isinstance(node, (ast.Assign, ast.AnnAssign)) and isinstance(node.value, ast.List) and node.value.elts \
+                and all(pair(e) for e in node.value.elts):
+            if page_map is not None:
+                raise ValueError("two page maps in Documentation.__init__")
+            page_map = [pair(e) for e in node.value.elts]
+            tgt = node.target if isinstance(node, ast.AnnAssign) else node.targets[0]
+            map_name = ast.unparse(tgt)
+    if not page_map:
+        raise ValueError("the (entity list, page class) map was not found in Documentation.__init__")
     extra = []
     for node in ast.walk(init):
-        if isinstance(node, ast.AnnAssign) and ast.unparse(node.target) == "entity_list_page_map":
-            page_map = [(e.elts[0].attr, ast.unparse(e.elts[1])) for e in node.value.elts]
-        if isinstance(node, ast.If) and "entity_list_page_map.append" in ast.unparse(node):
+        if isinstance(node, ast.If):
             for st in node.body:
-                call = st.value
-                e = call.args[0]
-                extra.append((ast.unparse(node.test), e.elts[0].attr, ast.unparse(e.elts[1])))
-    if not page_map:
-        raise ValueError("entity_list_page_map not found in Documentation.__init__")
+                if (isinstance(st, ast.Expr) and isinstance(st.value, ast.Call) and ast.unparse(st.value.func) == f"{map_name}.append"
+                        and len(st.value.args) == 1 and pair(st.value.args[0])):
+                    extra.append((ast.unparse(node.test),) + pair(st.value.args[0]))
     links = extract_links(classes, pclasses)
-    more = extract_round3(classes, pclasses)
-    return dict(more=more, cu=cu, ty=ty, bd=bd, has_prune=has_prune, pins=pins, srcs=srcs, containers=containers, chain=chain,
-                prune_loop=prune_loop, ranklist=ranklist_src, page_map=page_map, page_map_extra=extra, links=links)
+    more = extract_round3(classes)
+    return dict(more=more, cu=cu, ty=ty, bd=bd, has_prune=has_prune, page_map=page_map, page_map_extra=extra,
+                links=links, probes=probes,
+                display_defining={m: _entity_classes_defining(m) for m in ("_set_display", "_should_display", "filter_display", "__str__")})
 
 
-def extract_round3(classes, pclasses):
-    """entity kinds no `prune()` knows: where namelists get their pages (`Project._fortran_file` collects them when
-    a file is read), which `routines` are scanned, which page templates have a namelist section, which classes are
-    `visible` from their construction on, and pins of the correlate steps that move entities between lists before
-    `prune()` runs (`FortranCommon.correlate` takes the member variables out of the parent's `variables`,
-    `FortranType.correlate` adds the inherited components / bindings, `FortranNamelist.correlate` resolves the
-    variable names)."""
-    import re
+def extract_round3(classes):
+    """page templates with a namelist section (Jinja2's parser: a `for` over `<x>.namelists` whose body calls
+    `namelist_panel`), and that `routines` is not overridden"""
+    import jinja2
+    from jinja2 import nodes
 
-    ff = _method(pclasses, "Project", "_fortran_file")
-    check = [n for n in ast.walk(ff) if isinstance(n, ast.FunctionDef) and n.name == "namelist_check"]
-    if len(check) != 1 or len(check[0].args.args) != 1:
-        raise ValueError("Project._fortran_file: helper namelist_check(entity) not found")
-    arg = check[0].args.args[0].arg
-    if norm_src(check[0]) != f"self.namelists.extend(getattr({arg}, 'namelists', []))":
-        raise ValueError("namelist_check does not have the shape self.namelists.extend(getattr(entity, 'namelists', []))")
-    collect = []
-    for st in ff.body:
-        if not (isinstance(st, ast.For) and isinstance(st.iter, ast.Attribute) and ast.unparse(st.iter.value) == "new_file"):
-            if "namelist_check(" in ast.unparse(st) and not isinstance(st, ast.FunctionDef):
-                raise ValueError("namelist_check called outside a `for x in new_file.<list>` loop: " + ast.unparse(st)[:80])
-            continue
-        var = ast.unparse(st.target)
-        direct = routines = False
-        for b in st.body:
-            src = ast.unparse(b)
-            if src == f"namelist_check({var})":
-                direct = True
-            elif (isinstance(b, ast.For) and ast.unparse(b.iter) == f"{var}.routines"
-                  and [ast.unparse(x) for x in b.body] == [f"namelist_check({ast.unparse(b.target)})"]):
-                routines = True
-            elif "namelist_check(" in src:
-                raise ValueError("unrecognised use of namelist_check: " + src[:80])
-        collect.append((st.iter.attr, direct, routines))
-    if not any(d or r for _, d, r in collect):
-        raise ValueError("Project._fortran_file collects no namelists")
-    rt = _method(classes, "FortranBase", "routines")
-    calls = [n for n in ast.walk(rt) if isinstance(n, ast.Call) and ast.unparse(n.func) == "self.iterator"]
-    if len(calls) != 1 or not all(isinstance(a, ast.Constant) for a in calls[0].args):
-        raise ValueError("FortranBase.routines is not self.iterator(<literals>)")
-    routines_lists = [a.value for a in calls[0].args]
     if _defining(classes, "routines") != ["FortranBase"]:
         raise ValueError("`routines` is overridden: " + str(_defining(classes, "routines")))
-    # page templates with a namelist section: `{% for <x> in <obj>.namelists %}` + namelist_panel
+    env = jinja2.Environment()
     sections = []
     for t in sorted((common.REPO / "ford/templates").glob("*_page.html")):
-        txt = t.read_text()
-        if re.search(r"\{%-?\s*for\s+\w+\s+in\s+\w+\.namelists\s*-?%\}", txt) and "namelist_panel" in txt:
-            sections.append(t.name)
+        tree = env.parse(t.read_text())
+        for loop in tree.find_all(nodes.For):
+            it = loop.iter
+            if isinstance(it, nodes.Getattr) and it.attr == "namelists":
+                calls = [c for b in loop.body for c in b.find_all(nodes.Call)]
+                if any((isinstance(c.node, nodes.Getattr) and c.node.attr == "namelist_panel")
+                       or (isinstance(c.node, nodes.Name) and c.node.name == "namelist_panel") for c in calls):
+                    sections.append(t.name)
+                    break
     if not sections:
         raise ValueError("no page template renders namelists")
-    # classes whose `_initialize` / `__init__` ends with `self.visible = True` unconditionally
-    vis = []
-    for cname, node in classes.items():
-        for m in node.body:
-            if isinstance(m, ast.FunctionDef) and m.name in ("_initialize", "__init__"):
-                if any(isinstance(x, ast.Assign) and ast.unparse(x) == "self.visible = True" for x in m.body):
-                    vis.append(cname)
-    # `visible = True` set by a `correlate` (i.e. before `prune()` decides): (class, iterable of the loop it stands in)
-    vis_corr = []
-    for cname, node in classes.items():
-        for m in node.body:
-            if isinstance(m, ast.FunctionDef) and m.name == "correlate":
-                for loop in ast.walk(m):
-                    if isinstance(loop, ast.For):
-                        var = ast.unparse(loop.target)
-                        if any(ast.unparse(x) == f"{var}.visible = True" for x in loop.body):
-                            vis_corr.append((cname, ast.unparse(loop.iter)))
-                for x in m.body:
-                    if ast.unparse(x).endswith(".visible = True") and not isinstance(x, ast.For):
-                        vis_corr.append((cname, ast.unparse(x)))
-    fns = {
-        "FortranCommon.correlate": _method(classes, "FortranCommon", "correlate"),
-        "FortranNamelist.correlate": _method(classes, "FortranNamelist", "correlate"),
-        "FortranType.correlate": _method(classes, "FortranType", "correlate"),
-    }
-    tc = norm_src(fns["FortranType.correlate"])
-    # the two tests that decide which members an extending type inherits
-    inherit_tests = [x for x in ("var.permission == 'public'", "bp.permission == 'private'") if x in tc]
-    return dict(collect=collect, routines=routines_lists, sections=sections, visible_at_init=sorted(set(vis)),
-                visible_in_correlate=vis_corr,
-                pins={k: pin(v) for k, v in fns.items()}, srcs={k: norm_src(v) for k, v in fns.items()},
-                inherit_tests=inherit_tests)
+    return dict(sections=sections)
+
+
+def _entity_classes_defining(mname):
+    """names of the entity classes (subclasses of FortranBase in ford/sourceform.py) whose own body defines `mname`"""
+    common.import_ford()
+    import ford.sourceform as sf
+
+    return sorted(n for n, c in vars(sf).items() if isinstance(c, type) and issubclass(c, sf.FortranBase)
+                  and c.__module__ == sf.__name__ and mname in vars(c))
 
 
 def _defining(classes, mname):
@@ -274,112 +183,100 @@ def _defining(classes, mname):
 
 
 def extract_links(classes, pclasses):
-    """the mechanism that turns a `[[name]]` in a doc comment into a URL: where a name is looked up
-    (`FortranBase.children` order, `find_child`, `Project.find` over LINK_TYPES, the three steps of
-    `FordLinkProcessor.convert_link`) and which classes override any part of it."""
-    ch = _method(classes, "FortranBase", "children")
-    child_lists = None
-    non_list = None
-    for node in ast.walk(ch):
-        if isinstance(node, ast.Call) and ast.unparse(node.func) == "self.iterator":
-            if child_lists is not None:
-                raise ValueError("two self.iterator(...) calls in FortranBase.children")
-            if not all(isinstance(a, ast.Constant) and isinstance(a.value, str) for a in node.args) or node.keywords:
-                raise ValueError("FortranBase.children: iterator arguments are not string literals")
-            child_lists = [a.value for a in node.args]
-        if isinstance(node, ast.Assign) and ast.unparse(node.targets[0]) == "non_list_children":
-            if not isinstance(node.value, ast.List):
-                raise ValueError("non_list_children is not a list literal")
-            non_list = [e.value for e in node.value.elts]
-    if not child_lists or non_list is None:
-        raise ValueError("FortranBase.children: iterator lists / non_list_children not found")
-    # the shape of the property around the two tables
-    ret = [n for n in ch.body if isinstance(n, ast.Return)]
-    if len(ret) != 1 or not (isinstance(ret[0].value, ast.Call) and ast.unparse(ret[0].value.func) == "chain"
-                             and len(ret[0].value.args) == 2):
-        raise ValueError("FortranBase.children does not return chain(<lists>, <non-list children>)")
+    """the mechanism that turns a `[[name]]` in a doc comment into a URL: `LINK_TYPES` / `SUBLINK_TYPES` as the
+    modules bind them, which classes override any part of the lookup, pins (alpha-renamed) of the three functions
+    the link model mirrors statement by statement"""
+    common.import_ford()
+    import ford.fortran_project as fp
+    import ford.sourceform as sf
 
-    ptree = ast.parse((common.REPO / "ford/fortran_project.py").read_text())
-    link_types = None
-    for node in ptree.body:
-        if isinstance(node, ast.Assign) and ast.unparse(node.targets[0]) == "LINK_TYPES" and isinstance(node.value, ast.Dict):
-            link_types = [(k.value, v.value) for k, v in zip(node.value.keys, node.value.values)]
-    if not link_types:
-        raise ValueError("LINK_TYPES not found in ford/fortran_project.py")
-    stree = ast.parse((common.REPO / "ford/sourceform.py").read_text())
-    find_in_list = None
-    sublink = None
-    for node in stree.body:
-        if isinstance(node, ast.FunctionDef) and node.name == "_find_in_list":
-            find_in_list = node
-        if isinstance(node, ast.Assign) and ast.unparse(node.targets[0]) == "SUBLINK_TYPES" and isinstance(node.value, ast.Dict):
-            sublink = [(k.value, v.value) for k, v in zip(node.value.keys, node.value.values)]
-    if find_in_list is None or sublink is None:
-        raise ValueError("_find_in_list / SUBLINK_TYPES not found in ford/sourceform.py")
+    def table(mod, name):
+        v = getattr(mod, name, None)
+        if not isinstance(v, dict) or not v or not all(isinstance(k, str) and isinstance(x, str) for k, x in v.items()):
+            raise ValueError(f"{name} not found in {mod.__name__} (a dict of strings)")
+        return list(v.items())
+
+    link_types = table(fp, "LINK_TYPES")
+    sublink = table(sf, "SUBLINK_TYPES")
     _, mclasses = _classes("ford/_markdown.py")
-    fns = {
-        "find_child": _method(classes, "FortranBase", "find_child"),
-        "_find_in_list": find_in_list,
-        "Project.find": _method(pclasses, "Project", "find"),
-        "convert_link": _method(mclasses, "FordLinkProcessor", "convert_link"),
-        "get_url": _method(classes, "FortranBase", "get_url"),
-        "get_dir": _method(classes, "FortranBase", "get_dir"),
-    }
-    # candidate repair fixes/C05-doc-link-hidden-page.diff adds a module-level helper; absent in the code as it is
-    mtree = ast.parse((common.REPO / "ford/_markdown.py").read_text())
-    written = [n for n in mtree.body if isinstance(n, ast.FunctionDef) and n.name == "_has_written_page"]
     # every class of the three modules that defines part of the lookup
     defining = {}
     for m in ("find_child", "children", "get_url", "get_dir", "find", "convert_link", "iterator"):
         defining[m] = [f"{mod}:{c}" for mod, cl in (("sourceform", classes), ("fortran_project", pclasses), ("_markdown", mclasses))
                        for c in _defining(cl, m)]
-    pins = {k: pin(v) for k, v in fns.items()}
-    srcs = {k: norm_src(v) for k, v in fns.items()}
-    pins["_has_written_page"] = pin(written[0]) if written else ""
-    srcs["_has_written_page"] = norm_src(written[0]) if written else "(not defined)"
-    return dict(child_lists=child_lists, non_list=non_list, link_types=link_types, sublink=sublink,
-                pins=pins, srcs=srcs, defining=defining)
+    return dict(link_types=link_types, sublink=sublink, defining=defining)
 
 
 def translate():
     t = extract()
     cu, ty, bd = t["cu"], t["ty"], t["bd"]
-    L = ["/- GENERATED by translate/c05.py from ford/sourceform.py, ford/fortran_project.py, ford/output.py - do not edit -/",
+    pr = t["probes"]
+    pj = pr["project"]
+    L = ["/- GENERATED by translate/c05.py (probes of the real functions: translate/c05_probe.py) from ford/sourceform.py, "
+         "ford/fortran_project.py, ford/output.py, ford/_markdown.py, ford/templates - do not edit -/",
          "namespace Ford.Generated.C05", ""]
 
+    L.append("/-- what the probes could not make sense of (pinned to `[]`) -/")
+    L.append(f"def probeAnomalies : List String := {lean_list(pr['anomalies'])}")
+    L.append("/-- every attribute that holds a list of entities in some object of the probe project: the lists each probed "
+             "`prune()` was given three sentinel members in (one to keep, one private, one undocumented) -/")
+    L.append(f"def probeLists : List String := {lean_list(pr['universe'])}")
+    L.append("/-- `prune()` run on a real object of each concrete class, `display = [public]`, `hide_undoc` on: "
+             "(class, proc_internals, lists emptied, lists filtered, lists whose kept member was only marked visible, "
+             "lists whose kept member was marked visible and pruned) -/")
+    L.append("def pruneProbe : List (String × Bool × List String × List String × List String × List String) := [")
+    L.append(",\n".join(f"  ({lean_str(c)}, {lean_bool(p)}, {lean_list(e)}, {lean_list(f)}, {lean_list(v)}, {lean_list(r)})"
+                        for c, p, e, f, v, r in pr["prune_rows"]) + "]")
+    L.append(f"/-- classes of ford/sourceform.py (stand-ins for external projects excluded) with a `prune` attribute and the class of the MRO that defines it -/\ndef pruneClasses : List (String × String) := {lean_pairs(pr['prune_classes'])}")
+    L.append("")
+
     def prune_block(prefix, p, doc):
-        L.append(f"/-- {doc}: early-return guard (source text) -/")
-        L.append(f"def {prefix}Guard : String := {lean_str(p['guard'])}")
-        L.append(f"/-- lists set to [] under the guard -/\ndef {prefix}Emptied : List String := {lean_list(p['emptied'])}")
+        L.append(f"/-- {doc}: lists set to [] under the guard (probe row of a procedure with proc_internals off) -/\ndef {prefix}Emptied : List String := {lean_list(p['emptied'])}")
         L.append(f"/-- lists passed through filter_display unconditionally -/\ndef {prefix}Filtered : List String := {lean_list(p['filtered'])}")
-        L.append(f"/-- (condition, list) filtered under an `if` -/\ndef {prefix}CondFiltered : List (String × String) := {lean_pairs(p['cond_filtered'])}")
+        L.append(f"/-- (class, list) filtered only for that class -/\ndef {prefix}CondFiltered : List (String × String) := {lean_pairs(p['cond_filtered'])}")
         L.append(f"/-- lists whose members only get `visible = True` -/\ndef {prefix}VisibleOnly : List String := {lean_list(p['visible_only'])}")
         L.append(f"/-- lists whose members get `visible = True` and are pruned recursively -/\ndef {prefix}Recurse : List String := {lean_list(p['recurse'])}")
-        L.append(f"/-- statements of the method that fit none of the shapes above -/\ndef {prefix}Other : List String := {lean_list(p['other'])}")
         L.append("")
 
     prune_block("codeUnit", cu, "FortranCodeUnit.prune")
     prune_block("dtype", ty, "FortranType.prune")
     prune_block("blockData", bd, "FortranBlockData.prune")
     L.append(f"/-- classes that define prune() -/\ndef hasPrune : List String := {lean_list(t['has_prune'])}")
-    L.append(f"/-- CONTAINERS of Project.correlate: list of a code unit -> project page list -/\ndef containers : List (String × String) := {lean_pairs(t['containers'])}")
-    L.append(f"/-- the lists of a source file whose members are scanned with CONTAINERS -/\ndef codeUnitChain : List String := {lean_list(t['chain'])}")
-    L.append(f"/-- body of the `for container in ranklist` loop that prunes -/\ndef pruneLoop : String := {lean_str(t['prune_loop'])}")
-    L.append(f"/-- how ranklist is built -/\ndef ranklist : List String := {lean_list(t['ranklist'])}")
+    for m, cs in t["display_defining"].items():
+        nm = {"_set_display": "setDisplayDefinedIn", "_should_display": "shouldDisplayDefinedIn",
+              "filter_display": "filterDisplayDefinedIn", "__str__": "strDefinedIn"}[m]
+        L.append(f"/-- entity classes of ford/sourceform.py (subclasses of FortranBase) that define `{m}` -/\ndef {nm} : List String := {lean_list(cs)}")
+    L.append(f"/-- observed: (child list of a code unit, project page list its members are copied into by `Project.correlate`) -/\ndef containers : List (String × String) := {lean_pairs(pj['containers'])}")
+    L.append(f"/-- observed: the lists of a source file whose members' child lists are copied -/\ndef codeUnitChain : List String := {lean_list(pj['chain'])}")
+    L.append("/-- the observations the two tables above factorise: (file list, child list, project list) -/\ndef containerTriples : List (String × String × String) := ["
+             + ", ".join(f"({lean_str(a)}, {lean_str(b)}, {lean_str(c)})" for a, b, c in pj["container_triples"]) + "]")
+    L.append(f"/-- observed with every `prune` replaced by a recorder: (file list, how often `Project.correlate` prunes each member) -/\ndef pruneLoopProbe : List (String × String) := {lean_pairs(pj['prune_loop'])}")
+    L.append(f"/-- observed: every `correlate` of every entity has run before the first `prune` -/\ndef pruneAfterCorrelate : Bool := {lean_bool(pj['prune_after_correlate'])}")
     L.append(f"/-- Documentation.__init__: project list -> page class -/\ndef pageMap : List (String × String) := {lean_pairs(t['page_map'])}")
     L.append("/-- conditional additions to the page map: (condition, list, page class) -/\ndef pageMapExtra : List (String × String × String) := ["
              + ", ".join(f"({lean_str(a)}, {lean_str(b)}, {lean_str(c)})" for a, b, c in t["page_map_extra"]) + "]")
     L.append("")
-    for k, v in t["pins"].items():
-        nm = {"_set_display": "setDisplay", "_should_display": "shouldDisplay", "filter_display": "filterDisplay", "__str__": "str"}[k]
-        L.append("/- " + k + ":\n" + t["srcs"][k].replace("-/", "- /") + "\n-/")
-        L.append(f"/-- sha256[:16] of the normalised source (ast.unparse, docstring removed) of FortranBase.{k} -/")
-        L.append(f"def {nm}Pin : String := {lean_str(v)}")
+    L.append("/-- `_set_display` run on a real entity / a real source file; words coded 0 public, 1 protected, 2 private, 3 none, "
+             "4 anything else: (is a file, inherited list, lower-cased `meta.display`, resulting `display`, the result is the "
+             "inherited list object itself) -/")
+    L.append("def setDisplayProbe : List (Bool × List Nat × List Nat × List Nat × Bool) := [")
+    L.append(",\n".join(f"  ({lean_bool(f)}, {lean_nats(p)}, {lean_nats(m)}, {lean_nats(r)}, {lean_bool(a)})"
+                        for f, p, m, r, a in pr["set_display"]) + "]")
+    L.append("/-- `_should_display` / `filter_display` truth table per distinct implementation among the classes of the probe "
+             "project: (classes, rows (hide_undoc, documented, permission code, display codes, kept)) -/")
+    L.append("def shouldDisplayProbe : List (List String × List (Bool × Bool × Nat × List Nat × Bool)) := [")
+    L.append(",\n".join("  (" + lean_list(cs) + ", [" + ", ".join(
+        f"({lean_bool(h)}, {lean_bool(d)}, {pm}, {lean_nats(ds)}, {lean_bool(k)})" for h, d, pm, ds, k in rows) + "])"
+        for cs, rows in pr["should_display"]) + "]")
+    L.append("/-- `str(entity)`: (has a URL, `visible` true / false / absent, has a name, link | link-unnamed | name | empty) -/")
+    L.append("def strProbe : List (Bool × String × Bool × String) := ["
+             + ", ".join(f"({lean_bool(u)}, {lean_str(v)}, {lean_bool(n)}, {lean_str(o)})" for u, v, n, o in pr["str"]) + "]")
     lk = t["links"]
+    ch_lists, ch_single, routines = pr["children"]
     L.append("")
     L.append("/-! ### `[[name]]` links in doc comments -/")
-    L.append(f"/-- FortranBase.children: the list attributes searched by `find_child`, in iteration order -/\ndef childrenLists : List String := {lean_list(lk['child_lists'])}")
-    L.append(f"/-- FortranBase.children: single-object attributes searched after the lists -/\ndef nonListChildren : List String := {lean_list(lk['non_list'])}")
+    L.append(f"/-- FortranBase.children (probed): the list attributes searched by `find_child`, in iteration order -/\ndef childrenLists : List String := {lean_list(ch_lists)}")
+    L.append(f"/-- FortranBase.children (probed): single-object attributes searched after the lists -/\ndef nonListChildren : List String := {lean_list(ch_single)}")
     L.append(f"/-- LINK_TYPES of ford/fortran_project.py: entity word -> project list searched by `Project.find` -/\ndef linkTypes : List (String × String) := {lean_pairs(lk['link_types'])}")
     L.append(f"/-- SUBLINK_TYPES of ford/sourceform.py: entity word -> child list -/\ndef sublinkTypes : List (String × String) := {lean_pairs(lk['sublink'])}")
     for m, cs in lk["defining"].items():
@@ -387,31 +284,42 @@ def translate():
               "get_dir": "getDirDefinedIn", "find": "findDefinedIn", "convert_link": "convertLinkDefinedIn",
               "iterator": "iteratorDefinedIn"}[m]
         L.append(f"/-- classes (module:class) that define `{m}` -/\ndef {nm} : List String := {lean_list(cs)}")
-    for k, v in lk["pins"].items():
-        nm = {"find_child": "findChild", "_find_in_list": "findInList", "Project.find": "projectFind",
-              "convert_link": "convertLink", "get_url": "getUrl", "get_dir": "getDir",
-              "_has_written_page": "hasWrittenPage"}[k]
-        L.append("/- " + k + ":\n" + lk["srcs"][k].replace("-/", "- /").replace("/-", "/ -") + "\n-/")
-        L.append(f"/-- sha256[:16] of the normalised source (ast.unparse, docstring removed) of {k}"
-                 + (" (empty: the function does not exist)" if k == "_has_written_page" else "") + " -/")
-        L.append(f"def {nm}Pin : String := {lean_str(v)}")
+    L.append("/-- `_find_in_list` (probed): (case, 1 + index of the member returned; 0 = None) -/")
+    L.append("def findInListProbe : List (String × Nat) := ["
+             + ", ".join(f"({lean_str(c)}, {i + 1})" for c, i in pr["find_in_list"]) + "]")
+    L.append("/-- `get_dir` / `get_url` (probed on the objects of the probe project): (class, class of the parent, get_dir or -, "
+             "page | anchor:<class of the entity whose page carries the anchor> | none) -/")
+    L.append("def urlProbe : List (String × String × String × String) := [")
+    L.append(",\n".join(f"  ({lean_str(a)}, {lean_str(b)}, {lean_str(c)}, {lean_str(d)})" for a, b, c, d in pr["url"]) + "]")
+    def triples(name, doc, rows):
+        L.append(f"/-- {doc} -/")
+        L.append(f"def {name} : List (String × String × String × String) := [")
+        L.append(",\n".join(f"  ({lean_str(a)}, {lean_str(b_)}, {lean_str(c)}, {lean_str(d)})" for a, b_, c, d in rows) + "]")
+
+    triples("findChildProbe", "`FortranBase.find_child` (probed on stubs): (kind of case, list or entity word, list the word names, found | None | ValueError)",
+            pr["find_child"])
+    triples("projectFindProbe", "`Project.find` (probed on a stub project): (kind of case, list or entity word, list the word names, outcome)",
+            pr["project_find"])
+    L.append("/-- `FordLinkProcessor.convert_link` run through a real `MetaMarkdown` on scripted contexts / project: "
+             "(case, the lookups it made in order => what it rendered) -/")
+    L.append("def convertLinkProbe : List (String × String) := [")
+    L.append(",\n".join(f"  ({lean_str(a)}, {lean_str(b_)})" for a, b_ in pr["convert_link"]) + "]")
     mo = t["more"]
     L.append("")
     L.append("/-! ### entity kinds no `prune()` knows; entities moved between lists by `correlate` -/")
-    L.append("/-- Project._fortran_file: (list of the new file, namelists of its members collected, namelists of the members' `routines` collected) -/")
+    L.append("/-- observed on `Project(...)` of the probe project: (list of the new file, namelists of its members collected, namelists of the members' `routines` collected) -/")
     L.append("def namelistCollect : List (String × Bool × Bool) := ["
-             + ", ".join(f"({lean_str(a)}, {'true' if b else 'false'}, {'true' if c else 'false'})" for a, b, c in mo["collect"]) + "]")
-    L.append(f"/-- FortranBase.routines: the lists it iterates -/\ndef routinesLists : List String := {lean_list(mo['routines'])}")
-    L.append(f"/-- page templates that render `<entity>.namelists` with `namelist_panel` -/\ndef namelistSections : List String := {lean_list(mo['sections'])}")
-    L.append(f"/-- classes whose constructor sets `visible = True` -/\ndef visibleAtInit : List String := {lean_list(mo['visible_at_init'])}")
-    L.append(f"/-- `visible = True` set inside a `correlate` method (before `prune()`): (class, loop iterable) -/\ndef visibleInCorrelate : List (String × String) := {lean_pairs(mo['visible_in_correlate'])}")
-    L.append(f"/-- the permission tests of FortranType.correlate that decide which members are inherited -/\ndef inheritTests : List String := {lean_list(mo['inherit_tests'])}")
-    for k, v in mo["pins"].items():
-        nm = {"FortranCommon.correlate": "commonCorrelate", "FortranNamelist.correlate": "namelistCorrelate",
-              "FortranType.correlate": "typeCorrelate"}[k]
-        L.append("/- " + k + ":\n" + mo["srcs"][k].replace("-/", "- /").replace("/-", "/ -") + "\n-/")
-        L.append(f"/-- sha256[:16] of the normalised source (ast.unparse, docstring removed) of {k} -/")
-        L.append(f"def {nm}Pin : String := {lean_str(v)}")
+             + ", ".join(f"({lean_str(a)}, {lean_bool(b)}, {lean_bool(c)})" for a, b, c in pj["collect"]) + "]")
+    L.append(f"/-- FortranBase.routines (probed): the lists it iterates -/\ndef routinesLists : List String := {lean_list(routines)}")
+    L.append(f"/-- page templates with a `for` over `<entity>.namelists` that calls `namelist_panel` -/\ndef namelistSections : List String := {lean_list(mo['sections'])}")
+    L.append(f"/-- classes all of whose objects are `visible` when `Project(...)` has read the files -/\ndef visibleAtInit : List String := {lean_list(pj['visible_at_init'])}")
+    L.append(f"/-- observed with every `prune` replaced by a recorder: (class of the parent, class) of what `correlate()` alone makes visible -/\ndef visibleInCorrelate : List (String × String) := {lean_pairs(pj['visible_in_correlate'])}")
+    L.append("/-- observed after `correlate()` with nothing pruned: (member kind, permission code, carried by a type that extends its type) -/")
+    L.append("def inheritProbe : List (String × Nat × Bool) := ["
+             + ", ".join(f"({lean_str(a)}, {b}, {lean_bool(c)})" for a, b, c in pj["inherit"]) + "]")
+    L.append(f"/-- observed: the extending type keeps its own members after the inherited ones, an overriding binding once, no final procedure inherited -/\ndef inheritOwnLast : Bool := {lean_bool(pj['inherit_own_last_and_overriding'] and not pj['inherit_finalprocs'])}")
+    L.append(f"/-- observed: the members of a common block are variable objects taken out of the parent's `variables` -/\ndef commonMovesMembers : Bool := {lean_bool(pj['common_moves_members'])}")
+    L.append(f"/-- observed: a namelist's variables are the objects of the scope (locals, dummy arguments, host variables) -/\ndef namelistResolves : Bool := {lean_bool(pj['namelist_resolves'])}")
     L += ["", "end Ford.Generated.C05", ""]
     common.write_if_changed(common.LEAN / "FordModel" / "Generated" / "C05.lean", "\n".join(L))
     return t
